@@ -444,6 +444,10 @@ func TestC06(t *testing.T) {
 		"one signing request of one of the ten Sign* methods (nine duty kinds; attestations single and batched) against a generated fork schedule and account pool; non-trivial = the service returned at least one non-zero signature, every one of which was BLS-verified; distinct by the full request text")
 	col.ShardSize = EnvInt("VERIF_C06_SHARD", 50)
 	n := EnvInt("VERIF_N", 400)
+	// the harness's own merkleisation must agree with the libraries' HashTreeRoot
+	if _, err := libraryVectors(NewRand(Seed() + 77)); err != nil {
+		t.Fatalf("harness self-check: %v", err)
+	}
 	var ins []Input
 	for _, in := range LoadInputs[Input]("C06") {
 		in.Tags = append(in.Tags, "corpus")
